@@ -88,7 +88,8 @@ Status values:
   syserror.Wrap, Buffer.WriteRune, strings.ReplaceAll / Split / SplitN, sort.Search, errors.As, StripSourceRetentionOptions,
   NewPackageVersionForPackage; all were corrected in the spec files - look for "(bounded validation: ...)" comments - and the
   checks below are translated from the corrected clauses. Round 3 found three clauses of the bufio.Scanner model of
-  C17_writer.spec wrong for calls outside the usual ` + "`for sc.Scan() { sc.Bytes() }; sc.Err()`" + ` protocol: see below.)
+  C17_writer.spec wrong for calls outside the usual ` + "`for sc.Scan() { sc.Bytes() }; sc.Err()`" + ` protocol; the model now carries
+  the ghost flag v_scanEnded and Scan requires !v_scanEnded, and the checks honour that.)
 * **not validated: reason** — nothing was run.
 
 Clauses about ghost state (` + "`ghost.fail == (old(ghost.fail) || err != nil)`" + `, touched-path sets, counters) define the ghost
